@@ -618,6 +618,30 @@ def dataflow_shapes():
                 other: T(**{'on-success': ['d']}),
                 'd': T(join='all', publish={'w': ['var', 'v']})},
                 input={'w': 0}, output=out)
+    # an inbound task of a (partial) join that completes, publishes, but
+    # routes elsewhere (its guarded edge into the join does not fire): the
+    # join must not see what it published
+    for fresh in ('b', 'c'):
+        other = 'c' if fresh == 'b' else 'b'
+        for j in ('one', 1):
+            P['nonrouted_%s_join_%s' % (fresh, j)] = direct({
+                'a': T(publish={'v': ['lit', 1]},
+                       **{'on-success': ['b', 'c']}),
+                fresh: T(publish={'v': ['lit', 2], 'x': ['lit', 7]},
+                         **{'on-success': [['d', ['false']], 'e']}),
+                other: T(**{'on-success': ['d']}),
+                'd': T(join=j, publish={'w': ['var', 'v']}),
+                'e': T()},
+                input={'w': 0, 'x': 0}, output=out)
+        P['nonrouted_%s_on_error' % fresh] = direct({
+            'a': T(publish={'v': ['lit', 1]}, **{'on-success': ['b', 'c']}),
+            fresh: T(publish={'v': ['lit', 2]},
+                     **{'publish-on-error': {'v': ['lit', 3]},
+                        'on-error': ['d'], 'on-success': ['e']}),
+            other: T(**{'on-success': ['d']}),
+            'd': T(join='one', publish={'w': ['var', 'v']}),
+            'e': T()},
+            input={'w': 0}, output=out)
     P['chain_inc'] = direct({
         'a': T(publish={'v': ['lit', 1]}, **{'on-success': ['b']}),
         'b': T(publish={'v': ['inc', 'v']}, **{'on-success': ['c']}),
